@@ -870,7 +870,8 @@ orc_parse_handle_opcode (OrcParser *parser, const OrcLine *line)
           line->tokens[i], varname);
       /* it's possible we reused an existing variable, get its name so
        * that we can refer to it in the opcode */
-      args[j] = parser->program->vars[id].name;
+      if (id >= 0)
+        args[j] = parser->program->vars[id].name;
     }
   }
 
